@@ -15,6 +15,7 @@ arithmetic (n <= 2 for the iterations, <= 3 for the fast paths):
 from __future__ import annotations
 
 import itertools
+import math
 from fractions import Fraction
 
 import numpy as np
@@ -145,6 +146,26 @@ def make_higher(cfg):
             res = np.dot(Ar, _matpow(X.a, root.numerator)) - _eye(n)
             mf.prove_all_equal("the guard is computed from the returned X: A_ridge X^p - I", true_err[3], res, info)
             symx.prove_equal("returned error is that residual", terr.a[()], true_err[2], info)
+        # the stopping rule, stated over the norms actually computed: vec[j] = |M_j - I|_inf after iteration j (vec[0] the start, vec[-1] the final residual)
+        errs = [e[2] for e in vec[:-1]]
+        symx.prove("one error norm per iteration", len(errs) == int(it) + 1, info)
+        c12, small = SymReal.const(1.2), SymReal.const(1e-3)
+        last_accepted = errs[1] if len(errs) > 1 else errs[0]
+        for j in range(2, len(errs)):
+            prev, new = errs[j - 1], errs[j]
+            symx.prove(f"iteration {j} is only started while the error exceeds the tolerance", prev > tol, info)
+            stagnating = (new > prev * c12) | ((new == prev) & (prev < small)) if hasattr(new > prev, "__or__") else ((new > prev * c12) or (new == prev and prev < small))
+            is_break = (flag.name == "EARLY_STOP" and j == len(errs) - 1)
+            if is_break:
+                symx.prove("EARLY_STOP only on divergence (new > 1.2 * previous) or stagnation (equal and below 1e-3) of consecutive, distinct iterates", stagnating, info)
+            else:
+                symx.prove(f"iteration {j} is accepted only when neither diverging nor stagnating", ~stagnating if hasattr(stagnating, "__invert__") else (not stagnating), info)
+                last_accepted = new
+        if flag.name == "CONVERGED":
+            symx.prove("CONVERGED is reported only when the last accepted error is within the tolerance", last_accepted <= tol, info)
+        elif flag.name == "REACHED_MAX_ITERS":
+            symx.prove("REACHED_MAX_ITERS: the iteration count is the limit and the error still exceeds the tolerance", (int(it) >= iters) and True, info)
+            symx.prove("REACHED_MAX_ITERS: the error still exceeds the tolerance", last_accepted > tol, info)
         symx.CTX.events.append(f"iterations={it} flag={flag.name}")
         return f"{it} iterations {flag.name}"
 
@@ -224,6 +245,7 @@ def jobs_for(tier):
     add("make_higher", n=2, root="2", order=3, max_iterations=1)
     add("make_higher", n=2, root="2", order=2, max_iterations=2, tf32=False)
     add("make_higher", n=2, root="1/2", order=3, max_iterations=1, disable_tf32=False)
+    add("make_higher", n=2, root="1", order=2, max_iterations=3)  # two passes of the main loop: consecutive errors are compared
     for conf, root, shape in itertools.product(("eigen", "newton", "higher"), ("2", "4", "3/2"), ((1, 1), (1,))):
         add("make_scalar", config=conf, root=root, shape=list(shape))
     if tier == "thorough":
@@ -258,7 +280,7 @@ def make_eigen(cfg):
         if cfg.get("direct"):
             X = M._matrix_inverse_root_eigen(At, root, epsilon=eps, enhance_stability=enh)[0]
         else:
-            X = M.matrix_inverse_root(At, root, root_inv_config=EigenConfig(enhance_stability=enh), epsilon=eps, is_diagonal=False)
+            X = M.matrix_inverse_root(At, root, root_inv_config=EigenConfig(enhance_stability=enh, exponent_multiplier=cfg.get("exponent_multiplier", 1.0)), epsilon=eps, is_diagonal=False)
         symx.prove("one eigendecomposition", len(log["eigh"]) == 1, info)
         rec = log["eigh"][0]
         Aexp = A.copy()
@@ -293,6 +315,10 @@ def eigen_jobs(tier):
             for enh in (False, True):
                 jobs.append(dict(id=f"g{k}", module="checks.c10", factory="make_eigen", cfg=dict(n=n, root=root, enhance=enh, direct=bool(k % 2))))
                 k += 1
+    # a non-default exponent multiplier in the config: the caller folds it into `root`, so the routine's result for a given root does not depend on it
+    for enh in (False, True):
+        jobs.append(dict(id=f"g{k}", module="checks.c10", factory="make_eigen", cfg=dict(n=2, root="2", enhance=enh, direct=False, exponent_multiplier=2.0)))
+        k += 1
     if tier == "quick":
         jobs.append(dict(id=f"g{k}", module="checks.c10", factory="make_eigen", cfg=dict(n=3, root="2", enhance=True, direct=False)))
     return jobs
@@ -368,7 +394,7 @@ def replay(record):
             cands += [B @ B.T * s_, (B[:, :1] @ B[:, :1].T) * s_]
         for A, e in itertools.product(cands, epss + [1e-6]):
             for dt, rtol in ((torch.float64, 1e-8), (torch.float32, 2e-3)):
-                X = M.matrix_inverse_root(A.to(dt), root, root_inv_config=EigenConfig(enhance_stability=enh), epsilon=e)
+                X = M.matrix_inverse_root(A.to(dt), root, root_inv_config=EigenConfig(enhance_stability=enh, exponent_multiplier=cfg.get("exponent_multiplier", 1.0)), epsilon=e)
                 lam, Q = torch.linalg.eigh(A + e * torch.eye(n, dtype=torch.float64))
                 ref = Q @ torch.diag(lam.clamp(min=e) ** (-1.0 / float(root))) @ Q.T
                 # relative to the result's scale; float32 additionally loses cond * 1e-7
@@ -395,17 +421,69 @@ def replay(record):
                 break
     else:
         root = Fraction(cfg["root"])
+        g3 = torch.Generator().manual_seed(7)
+        for c_ in (1e2, 1e3, 1e4):  # moderately ill-conditioned inputs: several passes of the main loop
+            Qc, _ = torch.linalg.qr(torch.randn(n, n, dtype=torch.float64, generator=g3))
+            cands.append(Qc @ torch.diag(torch.logspace(0, -math.log10(c_), n, dtype=torch.float64)) @ Qc.T)
         for A, e in itertools.product(cands, epss):
             try:
                 X, Mm, flag, it, terr = M._matrix_inverse_root_higher_order(A, root, abs_epsilon=e, max_iterations=100, tolerance=1e-12, order=cfg["order"])
             except ArithmeticError:
                 continue
+            # the stopping rule against an independent replay of the documented iteration (same flag, same number of iterations)
+            if root.denominator == 1:
+                Xr, fr, itr = higher_order_reference(A, root, e, 100, 1e-12, cfg["order"])
+                if flag.name != fr or int(it) != itr:
+                    probs.append(f"higher-order solver stops with {flag.name} after {it} iterations; the documented rule gives {fr} after {itr} for A={A.tolist()} eps={e}")
+                    break
             lam, Q = torch.linalg.eigh(A + e * torch.eye(n, dtype=torch.float64))
             ref = Q @ torch.diag(lam ** (-1.0 / float(root))) @ Q.T
             if not torch.allclose(X, ref, rtol=1e-3, atol=1e-5):
                 probs.append(f"higher-order solver returns a result far from the spectral value for A={A.tolist()} eps={e}")
                 break
     return bool(probs), f"{kind} n={n}: {probs or 'agrees with the spectral oracle on the witness family'}"
+
+
+def higher_order_reference(A, root, eps, max_iterations, tolerance, order):
+    """The documented coupled higher-order iteration (Lakic), written out independently in float64: returns (X before the final powering, flag name, iterations)."""
+    import torch
+
+    p, q = root.numerator, root.denominator
+    n = A.shape[0]
+    b = [1.0]
+    num, den = 1, 1
+    for i in range(1, order):
+        num *= 1 + (i - 1) * p
+        den *= i * p
+        b.append(num / den)
+    I = torch.eye(n, dtype=torch.float64)
+    Ar = A + eps * I
+    z = 1.0 / torch.trace(Ar).item()
+    s_ = -1.0 / p
+    X = (z ** (-s_)) * I
+    Mm = z * Ar
+    Mp = Mm * s_ + I * (1 - s_)
+    X = X @ Mp
+    Mm = torch.linalg.matrix_power(Mp, p) @ Mm
+    err = (Mm - I).abs().max().item()
+    it = 1
+    flag = None
+    while err > tolerance and it < max_iterations:
+        it += 1
+        base = I - Mm
+        Mp = base * b[order - 1] + I * b[order - 2]
+        for i in reversed(range(order - 2)):
+            Mp = I * b[i] + Mp @ base
+        X = X @ Mp
+        Mm = torch.linalg.matrix_power(Mp, p) @ Mm
+        new = (Mm - I).abs().max().item()
+        if new > err * 1.2 or (new == err and err < 1e-3):
+            flag = "EARLY_STOP"
+            break
+        err = new
+    if flag is None:
+        flag = "REACHED_MAX_ITERS" if err > tolerance else "CONVERGED"
+    return X, flag, it
 
 
 def concrete_dispatch_real():
